@@ -12,6 +12,7 @@
  *       setz0v N v.. | hasfz0 | getfz0 f p | setfz0 f p v | getfz0v f | setfz0v f N v.. | dims |
  *       meta | setft k | setfmt k | setfprec p | setdprec p
  *   conv <src> <dst> <newtype>
+ *   reset                         (free both objects, allocate two fresh ones)
  * List arguments shorter than what the library reads are padded with zeros (the model does the
  * same: nth i l 0).
  *
@@ -211,7 +212,9 @@ static double complex *vlist(int needed)
 static void rhead(const char *ret)
 {
     printf("R %s ", ret);
-    if (errno == 0) {
+    if (strcmp(ret, "ok") == 0) {
+	printf("0");		/* errno after a successful call is unspecified */
+    } else if (errno == 0) {
 	printf("0");
     } else if (errno == EINVAL) {
 	printf("EINVAL");
@@ -292,6 +295,16 @@ static int run(void)
 	first = next();
 	errno = 0;
 	cb_count = 0;
+	if (strcmp(first, "reset") == 0) {
+	    vnadata_free(vd[0]);
+	    vnadata_free(vd[1]);
+	    vd[0] = vnadata_alloc(error_fn, NULL);
+	    vd[1] = vnadata_alloc(error_fn, NULL);
+	    errno = 0;
+	    rint_(0);
+	    digest(0, vd[0]);
+	    continue;
+	}
 	if (strcmp(first, "conv") == 0) {
 	    int a = nint(), b = nint(), nt = nint();
 	    int rc = vnadata_convert(vd[a], vd[b], (vnadata_parameter_type_t)nt);
